@@ -31,6 +31,7 @@ type Case struct {
 	Model  *eng.ProgCase `json:"model,omitempty"`
 	Typeof string        `json:"typeof,omitempty"` // expected last output line if the run completes
 	ViaCLI bool          `json:"via_cli,omitempty"`
+	SVG    bool          `json:"svg,omitempty"` // with ViaCLI: run with --svg-out
 	Origin string        `json:"origin,omitempty"`
 }
 
@@ -43,6 +44,8 @@ func setupExclusions(ctx *h.Ctx) {
 		excludeF53 = func() { ctx.Rec.Exclude("F53") }
 	}
 }
+
+var drawingCall = regexp.MustCompile(`(?m)^\s*(move|line|rect|circle|ellipse|text|clear|grid|gridn|poly|curve|color|colour|width|fill|stroke|font|dash|linecap)\b`)
 
 var okClass = regexp.MustCompile(`^(ok|stopped|test|toomuch|exit:-?\d+|panic:[a-z]+)$`)
 
@@ -102,9 +105,17 @@ func checkCLI(c Case) *h.Failure {
 	defer os.RemoveAll(dir)
 	f := filepath.Join(dir, "p.evy")
 	os.WriteFile(f, []byte(c.Src), 0o644) //nolint:errcheck
-	cctx, cancel := context.WithTimeout(context.Background(), 120*time.Second)
+	limit := 120 * time.Second
+	args := []string{"run", "--skip-sleep"}
+	if c.SVG {
+		// through the command line's own platform with the SVG back end (drawing built-ins do real work there)
+		limit = 30 * time.Second
+		args = append(args, "--svg-out", filepath.Join(dir, "out.svg"))
+	}
+	cctx, cancel := context.WithTimeout(context.Background(), limit)
 	defer cancel()
-	cmd := exec.CommandContext(cctx, bin, "run", "--skip-sleep", f)
+	cmd := exec.CommandContext(cctx, bin, append(args, f)...)
+	cmd.Stdin = strings.NewReader(strings.Join(c.Inputs, "\n") + "\n")
 	cmd.Env = append(os.Environ(), "GOMAXPROCS=2")
 	out, _ := cmd.CombinedOutput()
 	s := string(out)
@@ -179,6 +190,10 @@ func TestMutants(t *testing.T) {
 	ctx := h.Setup(t, "C02")
 	setupExclusions(ctx)
 	all := corpus.All()
+	svgBudget, nsvg := 60, 0
+	if ctx.Thorough() {
+		svgBudget = 1500
+	}
 	rapid.Check(t, func(t *rapid.T) {
 		p := all[rapid.IntRange(0, len(all)-1).Draw(t, "prog")]
 		q := all[rapid.IntRange(0, len(all)-1).Draw(t, "other")]
@@ -199,6 +214,11 @@ func TestMutants(t *testing.T) {
 			ctx.Rec.Add("mutants_accepted", 1)
 		}
 		ctx.Rec.Add("mutants_total", 1)
+		if fl == nil && accepted && res.Out.Class == "ok" && drawingCall.MatchString(src) && nsvg < svgBudget && rapid.IntRange(0, 3).Draw(t, "svgcli") == 0 {
+			nsvg++
+			ctx.Rec.Add("mutants_run_with_svg_platform", 1)
+			fl = checkCLI(Case{Src: src, Inputs: inputs, ViaCLI: true, SVG: true, Origin: c.Origin})
+		}
 		ctx.Rec.Case(accepted && src != p.Src, src, "source:mutant", "mutant:"+cls)
 		if accepted && ctx.Rec.WantSample() && len(src) < 500 && src != p.Src {
 			ctx.Rec.Sample(map[string]any{"origin": c.Origin, "ops": ops, "src": src, "outcome": res.Out.Class})
